@@ -13,6 +13,7 @@
 -/
 import MoThreads.Props.C12
 import MoThreads.Proofs.TreeStop
+import MoThreads.Proofs.TreeReg
 namespace MoThreads.ThreadTree
 open MoThreads
 
@@ -137,5 +138,50 @@ example : (demo11.map fun q => (q.1.call 0, q.1.everChild 1, q.1.everChild 2, q.
 example : (demo11.map fun q => (q.2.pstop 1, q.2.pstop 2, q.2.pstop 3, q.2.stopped 3)) = some (true, true, true, false) := by
   decide
 
+
+/-- Every thread that exists descends from the main thread through the registration lists. -/
+theorem C11_every_thread_descends_from_main {s : State} (h : sys.Reach s) (c : Nat) (hc0 : c ≠ 0)
+    (hpc : s.phase c ≠ .absent) : Desc s 0 c := desc_of_main h c hc0 hpc
+
+/-- MainThread.stop() leaves nothing behind: when its join phase is over, EVERY thread that exists — children of the
+main thread, their descendants through any number of generations, threads registered while the shutdown was under
+way — has stopped and is no longer in the registry `ALL`. -/
+theorem C11_main_stop_leaves_nothing_registered {s : State} (h : sys.Reach s) (cs raised : List Nat)
+    (hc : s.call 0 = .mJ cs [] raised) (c : Nat) (hc0 : c ≠ 0) (hpc : s.phase c ≠ .absent) :
+    s.stopped c = true ∧ s.inAll c = false := by
+  obtain ⟨hi, hr⟩ := reach_invR h
+  have top : ∀ c1, c1 ∈ s.everChild 0 → s.stopped c1 = true := by
+    intro c1 h1
+    rcases hi.ever 0 c1 h1 with h2 | h2
+    · have : c1 ∈ cs := hr.R4 cs (by rw [hc]; rfl) c1 h2
+      exact (C11_main_stop_waits_for_all h cs raised hc c1 c1 this).1
+    · exact h2
+  have hst : s.stopped c = true := by
+    cases C11_every_thread_descends_from_main h c hc0 hpc with
+    | child h1 => exact top c h1
+    | step h1 hd => exact C10_descendants_first h _ _ (top _ h1) hd
+  refine ⟨hst, hr.R1 c hc0 ?_⟩
+  have := (hi.stP c).mp hst
+  cases hp : s.phase c <;> simp_all [Phase.isStopped, Phase.unregistered]
+
+/-- non-vacuity: main spawns t1, t1 spawns t2; MainThread.stop() is called while both run; t2 returns, t1 fails; at the end of
+the join phase both have stopped, neither is registered any more, and the failure is on record -/
+def demoMainStop : Option State := do
+  let s ← call init 0 .spawn
+  let s := settle 10 s 0
+  let s := settle 10 s 1
+  let s ← call s 1 .spawn
+  let s := settle 10 s 1
+  let s := settle 10 s 2
+  let s ← call s 0 .mainStop
+  let s := settle 40 s 0            -- please_stop, snapshot, stop the children, block joining t1
+  let s ← call s 2 (.finish (.ok 1))
+  let s := settle 40 s 2
+  let s ← call s 1 (.finish .fail)
+  let s := settle 40 s 1
+  pure (settle 7 s 0)
+
+example : (demoMainStop.map fun s => (s.call 0, s.stopped 1, s.stopped 2, s.inAll 1, s.inAll 2)) =
+    some (.mJ [1] [] [1], true, true, false, false) := by decide
 
 end MoThreads.ThreadTree
